@@ -10,6 +10,10 @@ for path in sys.argv[1:]:
             name, prop, rc, classes, exp, rep, verdict = m.groups()
             rows[name] = (prop, [c.strip("' ") for c in classes.split(",") if c.strip()], verdict, rep)
             continue
+        m = re.search(r"mutant (\S+) \[(C\d\d)\]: rc=0 -> missed \(documented", line)
+        if m:
+            rows[m.group(1)] = (m.group(2), [], "missed (documented, DESIGN §9)", "-")
+            continue
         m = re.search(r"mutant (\S+) \[(C\d\d)\] \(harmless variation, must NOT alarm\): (\w+)", line)
         if m:
             rows[m.group(1)] = (m.group(2), [], "quiet" if m.group(3) == "quiet" else "ALARM", "-")
